@@ -186,11 +186,11 @@ func c07Run(tier string, seed int64, idx int) *core.Result {
 		}
 		fmu.Unlock()
 	}
-	b.Links[0].Tap.OnDelivered = func(n int, r *wire.Rec) {
+	b.Links[0].Tap.SetOnDelivered(func(n int, r *wire.Rec) {
 		if n-base == c.Pos {
 			fire()
 		}
-	}
+	})
 	if c.Pos == 0 {
 		fire()
 	}
